@@ -8,6 +8,8 @@ from harness import circgen as cg, logicsim_corr as lc, simcheck as sk, wavechec
 THEOREMS = ['C07_levels_valid', 'C07_any_order_in_level', 'C07_threads_once', 'C07_build_ops_ssa', 'C07_build_levels_valid',
             'C07_build_stems_defined', 'C07_stems_are_chain_heads', 'C07_build_ops_ssa_strip', 'C07_build_levels_valid_strip', 'C07_build_sched_cert',
             'C07_launcher_source_is_model']
+THEOREMS += ['C07_simops_stems_source_is_model', 'C07_simops_levels_source_is_model', 'C07_simops_op_ok_checkable',
+             'C07_simops_levels_source_nonvacuous', 'C07_simops_stems_source_is_model_wf', 'C07_simops_levels_source_is_model_wf']
 
 
 def permute_levels(sim, rng):
@@ -125,7 +127,11 @@ def run(ck):
     if THEOREMS:
         from vcheck import gen_all
         gen_all.generate(['LaunchSrc'])     # tie T for the launcher: regenerated before the build (obligation recorded by launch_corr.run)
+        from harness import simops_corr as sc0
+        ok_src = sc0.translate_simops(ck)   # tie T for the scheduler (stem table, level pass)
         ck.prove('C07', THEOREMS)
+        if ok_src:
+            sc0.run_source_corr(ck, random.Random(ck.seed * 7919 + 107), ck.scale(8, 200), 'schedule')
     rng = random.Random(ck.seed * 7919 + 7)
     nrng = np.random.default_rng(ck.seed + 7)
     fails = []
@@ -135,6 +141,7 @@ def run(ck):
         c, a = cg.gen_circuit(rng)
         certs.append((c, rng.random() < 0.6, rng.random() < 0.5))
     sc.run_certs(ck, certs, 'schedule')
+    sc.run_op_ok(ck, certs, 'schedule')
     # the hypotheses of C07_build_ops_ssa(_strip) / C07_build_levels_valid(_strip) hold for the generated circuits
     hyp = [f'(wf_netlist_b {cg.coq_netlist(c)} && acyclic_b {cg.coq_netlist(c)} && '
            f'match build_stems {cg.coq_netlist(c)} true ({len(c.lines)} + 3 + 2 * {len(c.s_nodes)}) with Some _ => true | None => false end)'
